@@ -441,13 +441,13 @@ def c15(res: Result):
     ops = ["exp", "bfs", "dfs", "min", "tgt", "aseeds", "skipmin", "skiprem", "block"]
     invs_mc = ["Inv_WF", "Inv_PartialFaithful", "Inv_CacheFresh", "Inv_RetFalse", "Inv_MinExact", "Inv_FullExact"]
     if q:
-        recs = run_mc(res, "limits", ops, 2, [0, 2], [1, 1000], invs_mc, 1, failats=[0, 1, 2])
+        recs = run_mc(res, "limits", ops, 2, [0, 2], [1, 1000], invs_mc, 1, failats=[0, 2])
     else:
         recs = run_mc(res, "limits", ops, 2, [0, 1, 2, 3], [0, 1, 2, 1000], invs_mc, 1, failats=[0, 1, 2, 3])
     interesting = [r for r in recs if r["failat"] or r["maxm"] != 1000 or any(isinstance(x, int) and x >= 0 for h in r["hist"] for x in h[2:])]
-    tasks = tasks_from_emitted(interesting, rng, N(q, 1500, 20000), "m")
+    tasks = tasks_from_emitted(interesting, rng, N(q, 900, 20000), "m")
     # random networks: limited calls under small max_motifs_per_node, then the same call relaxed
-    pool = gen.network_pool(rng, N(q, 400, 5000), [3, 3, 4, 4, 5] if q else [3, 4, 4, 5, 5, 6])
+    pool = gen.network_pool(rng, N(q, 300, 5000), [3, 3, 4, 4, 5] if q else [3, 4, 4, 5, 5, 6])
     for i, tt in enumerate(pool):
         cfg = {"maxm": rng.choice([0, 1, 2, 3, 100000, 100000]), "candlim": rng.choice([0, 1, 2, 100000]), "rsthr": 1000,
                "simbudget": 1000, "nfvsthr": 2000}
@@ -455,7 +455,7 @@ def c15(res: Result):
                       "kinds": gen.PLAIN_KINDS + ["skipmin", "skiprem", "minskip", "seeds", "cand", "sets", "block", "block"], "steps": rng.randint(2, 5),
                       "tail": [FULL_BFS], "meta": "limits + resource-limit errors"})
     # size-limited block expansion on networks with source variables (also sources that appear after percolation)
-    srcnets = [tt for tt in gen.network_pool(rng, N(q, 400, 4000), [3, 4, 4, 5], ["modular"])
+    srcnets = [tt for tt in gen.network_pool(rng, N(q, 250, 4000), [3, 4, 4, 5], ["modular"])
                if any(all(tt[i][s] == ((s >> i) & 1) for s in range(1 << len(tt))) for i in range(len(tt)))]
     import features as _features
     srcnets += [tt for _, tt in _features.feature_networks(["new_source", "modules"], 6)]
@@ -465,7 +465,7 @@ def c15(res: Result):
                           "ops": [{"op": "block", "maa": rng.random() < 0.5, "optsrc": True, "exact": False, "size": z},
                                   {"op": "block", "maa": True, "optsrc": True, "exact": False, "size": -1}]})
     # fault enumeration: every solver call of the last call fails once
-    fpool = gen.network_pool(rng, N(q, 150, 2000), [3, 4, 4, 5])
+    fpool = gen.network_pool(rng, N(q, 100, 2000), [3, 4, 4, 5])
     for i, tt in enumerate(fpool):
         pre = rng.choice([[], [{"op": "exp", "n": 1}], [{"op": "bfs", "n": 1, "lvl": 0, "size": -1}]])
         last = rng.choice([FULL_BFS, FULL_DFS, {"op": "min", "n": 1, "size": -1, "skip": rng.random() < 0.5},
@@ -485,6 +485,33 @@ def c15(res: Result):
     def nt(tr):
         return any(e["raised"] or e["ret"] == "false" for e in tr["events"])
     execute_and_validate(res, tasks, invs, "limits", nt)
+    # resume: interrupted call + the same call with relaxed limits = the call that was never interrupted
+    rt = []
+    rpool = gen.network_pool(rng, N(q, 160, 3000), [3, 4, 4, 5], ["sparse", "modular", "mixed"])
+    rpool += [tt for _, tt in gen.gadget_networks().items() if len(tt) <= 5]
+    for i, tt in enumerate(rpool):
+        n = len(tt)
+        kind = rng.choice(["bfs", "dfs", "min", "aseeds", "tgt", "seeds"])
+        pre = rng.choice([[], [], [{"op": "exp", "n": 1}], [{"op": "bfs", "n": 1, "lvl": 0, "size": -1}]])
+        z = rng.choice([1, 2, 3, 4, 6])
+        op = {"bfs": {"op": "bfs", "n": 1, "lvl": rng.choice([-1, 0, 1]), "size": rng.choice([-1, z])},
+              "dfs": {"op": "dfs", "n": 1, "stk": rng.choice([-1, 0, 1, 2]), "size": rng.choice([-1, z])},
+              "min": {"op": "min", "n": 1, "size": z, "skip": False},
+              "aseeds": {"op": "aseeds", "size": z},
+              "tgt": {"op": "tgt", "target": [rng.choice([0, 1, 2]) for _ in range(n)], "size": z},
+              "seeds": {"op": "seeds", "n": 1, "fallback": False}}[kind]
+        if kind == "tgt" and all(x == 2 for x in op["target"]):
+            op["target"][0] = 1
+        t = {"kind": "resume", "tid": f"rs{i}", "tt": tt, "pre": pre, "op": op}
+        mode = rng.random()
+        if mode < 0.35:
+            op["fail_at"] = rng.choice([1, 1, 2, 3])                 # the k-th solver call fails
+        elif mode < 0.6 or kind == "seeds":
+            # a configured resource limit fires in the interrupted run, the relaxed run has the default configuration
+            t["cfg"] = {"maxm": rng.choice([1, 2, 3]) if kind != "seeds" else 100000, "candlim": rng.choice([0, 1, 2]) if kind == "seeds" else 100000,
+                        "rsthr": 1000, "simbudget": 1000, "nfvsthr": 2000}
+        rt.append(t)
+    run_twin(res, rt, ["Inv_ISO", "Inv_OUT"], [], "resume", lambda t: len(t["b"][-1]["post"]["nodes"]) >= 3)
 
 
 # ------------------------------------------------------------------------------------------------
